@@ -18,6 +18,24 @@ Op lines (strings percent-encoded; `<hdrs>` = `_` or `k|v;k|v…`; `<list>` = `_
 -/
 open LunarVerif LunarVerif.Proto LunarVerif.C07
 
+/-! ### bytes on the wire ↔ model strings
+
+Header names and values, bodies, paths … are BYTE strings (Go strings need not be UTF-8).  A model
+`String` stands for a byte string: the character with code `b < 256` stands for the byte `b`
+(`Proofs/C07.lean`, section "bytes").  Percent-encoding transports the bytes. -/
+
+def decB (s : String) : String :=
+  if s == "%e" then "" else
+  String.ofList ((pctDecBytes s.toList ByteArray.empty).toList.map fun b => Char.ofNat b.toNat)
+
+def encB (s : String) : String :=
+  if s.isEmpty then "%e" else
+  s.toList.foldl (init := "") fun acc ch =>
+    let b := ch.toNat % 256
+    let c := Char.ofNat b
+    if b < 128 && (c.isAlphanum || "._~:/{}*,=+@$-".contains c) then acc.push c
+    else acc ++ "%" ++ String.singleton (hexDigit (b / 16)) ++ String.singleton (hexDigit (b % 16))
+
 /-! ### canonical text -/
 
 def insertBy {α} (lt : α → α → Bool) (x : α) : List α → List α
@@ -28,22 +46,22 @@ def sortBy {α} (lt : α → α → Bool) (l : List α) : List α := l.foldr (in
 
 def fmtHdrs (h : Hdrs) : String :=
   if h.isEmpty then "_" else
-  ";".intercalate ((sortBy (fun a b => decide (a.1 < b.1)) h).map fun kv => pctEnc kv.1 ++ "|" ++ pctEnc kv.2)
+  ";".intercalate ((sortBy (fun a b => decide (a.1 < b.1)) h).map fun kv => encB kv.1 ++ "|" ++ encB kv.2)
 
 def fmtList (l : List String) : String :=
-  if l.isEmpty then "_" else ";".intercalate (l.map pctEnc)
+  if l.isEmpty then "_" else ";".intercalate (l.map encB)
 
 def fmtReq : ReqAct → String
   | .noop => "noop"
-  | .early s b h => s!"early status={s} body={pctEnc b} h={fmtHdrs h}"
+  | .early s b h => s!"early status={s} body={encB b} h={fmtHdrs h}"
   | .modHdr h => s!"modhdr h={fmtHdrs h}"
   | .modReq h host path q b =>
-    s!"modreq h={fmtHdrs h} host={pctEnc host} path={pctEnc path} query={pctEnc q} body={pctEnc b}"
-  | .genReq h rm b => s!"genreq h={fmtHdrs h} rm={fmtList rm} body={pctEnc b}"
+    s!"modreq h={fmtHdrs h} host={encB host} path={encB path} query={encB q} body={encB b}"
+  | .genReq h rm b => s!"genreq h={fmtHdrs h} rm={fmtList rm} body={encB b}"
 
 def fmtResp : RespAct → String
   | .noop => "noop"
-  | .modResp h b s => s!"modresp h={fmtHdrs h} body={pctEnc b} status={s}"
+  | .modResp h b s => s!"modresp h={fmtHdrs h} body={encB b} status={s}"
   | .retry h => s!"retry h={fmtHdrs h}"
 
 def isDumpVar (name : String) : Bool :=
@@ -60,8 +78,8 @@ def fmtVar (v : SVar) : String :=
   let val := match v.val with
     | .bool b => "b:" ++ (if b then "true" else "false")
     | .int i => s!"i:{i}"
-    | .bytes s => "y:" ++ pctEnc s
-    | .str s => "s:" ++ pctEnc (if isDumpVar v.name then canonDump s else s)
+    | .bytes s => "y:" ++ encB s
+    | .str s => "s:" ++ encB (if isDumpVar v.name then canonDump s else s)
   s!"{sc}:{v.name}={val}"
 
 def fmtEnc (vs : List SVar) : String :=
@@ -79,30 +97,30 @@ def parseHdrs (s : String) : Option Hdrs :=
   (s.splitOn ";").foldl (init := some []) fun acc item =>
     match acc, item.splitOn "|" with
     | some h, [k, v] =>
-      let k := pctDec k
+      let k := decB k
       -- a Go map: a later binding of the same key replaces the earlier one
-      some (h.filter (fun p => p.1 != k) ++ [(k, pctDec v)])
+      some (h.filter (fun p => p.1 != k) ++ [(k, decB v)])
     | _, _ => none
 
 def parseList (s : String) : Option (List String) :=
-  if s == "_" then some [] else some ((s.splitOn ";").map pctDec)
+  if s == "_" then some [] else some ((s.splitOn ";").map decB)
 
 def parseReqWords : List String → Option ReqAct
   | ["noop"] => some .noop
   | "early" :: ws => do
     let s ← kvInt ws "status"; let b ← kv ws "body"; let h ← (kv ws "h").bind parseHdrs
-    pure (.early s (pctDec b) h)
+    pure (.early s (decB b) h)
   | "modhdr" :: ws => do
     let h ← (kv ws "h").bind parseHdrs
     pure (.modHdr h)
   | "modreq" :: ws => do
     let h ← (kv ws "h").bind parseHdrs
     let host ← kv ws "host"; let path ← kv ws "path"; let q ← kv ws "query"; let b ← kv ws "body"
-    pure (.modReq h (pctDec host) (pctDec path) (pctDec q) (pctDec b))
+    pure (.modReq h (decB host) (decB path) (decB q) (decB b))
   | "genreq" :: ws => do
     let h ← (kv ws "h").bind parseHdrs
     let rm ← (kv ws "rm").bind parseList; let b ← kv ws "body"
-    pure (.genReq h rm (pctDec b))
+    pure (.genReq h rm (decB b))
   | _ => none
 
 def parseRespWords : List String → Option RespAct
@@ -110,7 +128,7 @@ def parseRespWords : List String → Option RespAct
   | "modresp" :: ws => do
     let h ← (kv ws "h").bind parseHdrs
     let b ← kv ws "body"; let s ← kvInt ws "status"
-    pure (.modResp h (pctDec b) s)
+    pure (.modResp h (decB b) s)
   | "retry" :: ws => do
     let h ← (kv ws "h").bind parseHdrs
     pure (.retry h)
@@ -131,8 +149,8 @@ def parseVar (w : String) : Option SVar := do
   let v ← match ty with
     | "b" => if val == "true" then some (SVal.bool true) else if val == "false" then some (.bool false) else none
     | "i" => val.toInt?.map .int
-    | "y" => some (.bytes (pctDec val))
-    | "s" => some (.str (pctDec val))
+    | "y" => some (.bytes (decB val))
+    | "s" => some (.str (decB val))
     | _ => none
   pure ⟨scope, name, v⟩
 
@@ -165,7 +183,7 @@ def parseRemedy (w : String) : Option Remedy := do
   | "acct" => (parseHdrs v).map .acct
   | "apikey" => (parseHdrs v).map .apikey
   | "oauth" =>
-    let sec := pctDec v
+    let sec := decB v
     if sec.toList.all Char.isAlphanum then some (.oauth sec) else none
   | "retry" =>
     match v.splitOn "," with
@@ -314,8 +332,8 @@ def judgeStep (s : JudgeSt) (op out : String) : JudgeSt :=
         let ins := s.rins ++ [a]
         let names := s.names ++ [name]
         { s with rins := ins, names := names, obs := (.req ins o vs, names) :: s.obs }
-      | none => { s with bad := some ("unparsable-action:" ++ pctEnc out) }
-    | _, _ => { s with bad := some ("unparsable-answer:" ++ pctEnc out) }
+      | none => { s with bad := some ("unparsable-action:" ++ encB out) }
+    | _, _ => { s with bad := some ("unparsable-answer:" ++ encB out) }
   | ["rs", name] =>
     if out.startsWith "err:" then s else
     match (s.defs.lookup name).bind Obj.asResp, splitAnswer (words out) with
@@ -324,71 +342,71 @@ def judgeStep (s : JudgeSt) (op out : String) : JudgeSt :=
       | some o =>
         let ins := s.sins ++ [a]
         { s with sins := ins, prev := o, obs := (.resp ins s.prev o vs, s.names) :: s.obs }
-      | none => { s with bad := some ("unparsable-action:" ++ pctEnc out) }
-    | _, _ => { s with bad := some ("unparsable-answer:" ++ pctEnc out) }
+      | none => { s with bad := some ("unparsable-action:" ++ encB out) }
+    | _, _ => { s with bad := some ("unparsable-answer:" ++ encB out) }
   | "reqsite" :: names =>
     if out.startsWith "err:" then s else
     match names.mapM (fun n => (s.defs.lookup n).bind Obj.asReq), parseSpoe (words out) with
     | some ins, some vs =>
       let all := s.names ++ names
       { s with names := all, obs := (.reqSite ins vs, all) :: s.obs }
-    | _, _ => { s with bad := some ("unparsable-answer:" ++ pctEnc out) }
+    | _, _ => { s with bad := some ("unparsable-answer:" ++ encB out) }
   | "legacyreq" :: h :: rems =>
     if out.startsWith "err:" || out == "bad-op" then s else
     match (if h.startsWith "h=" then parseHdrs (h.drop 2).toString else none), rems.mapM parseRemedy,
           parseSpoe (words out) with
     | some H0, some rs, some vs => { s with obs := (.legacyReq H0 rs vs, s.names) :: s.obs }
-    | _, _, _ => { s with bad := some ("unparsable-answer:" ++ pctEnc out) }
+    | _, _, _ => { s with bad := some ("unparsable-answer:" ++ encB out) }
   | "legacyresp" :: st :: rems =>
     if out.startsWith "err:" || out == "bad-op" then s else
     match kvInt [st] "status", rems.mapM parseRemedy, parseSpoe (words out) with
     | some status, some rs, some vs => { s with obs := (.legacyResp status rs vs, s.names) :: s.obs }
-    | _, _, _ => { s with bad := some ("unparsable-answer:" ++ pctEnc out) }
+    | _, _, _ => { s with bad := some ("unparsable-answer:" ++ encB out) }
   | "reqpolicy" :: names =>
     if out.startsWith "err:" then s else
     match names.mapM (fun n => (s.defs.lookup n).bind Obj.asReq), parseSpoe (words out) with
     | some ins, some vs => { s with obs := (.reqSite ins vs, s.names) :: s.obs }
-    | _, _ => { s with bad := some ("unparsable-answer:" ++ pctEnc out) }
+    | _, _ => { s with bad := some ("unparsable-answer:" ++ encB out) }
   | "resppolicy" :: names =>
     if out.startsWith "err:" then s else
     match names.mapM (fun n => (s.defs.lookup n).bind Obj.asResp), parseSpoe (words out) with
     | some ins, some vs => { s with obs := (.respSite ins vs, s.names) :: s.obs }
-    | _, _ => { s with bad := some ("unparsable-answer:" ++ pctEnc out) }
+    | _, _ => { s with bad := some ("unparsable-answer:" ++ encB out) }
   | "respsite" :: names =>
     if out.startsWith "err:" then s else
     match names.mapM (fun n => (s.defs.lookup n).bind Obj.asResp), parseSpoe (words out) with
     | some ins, some vs => { s with obs := (.respSite ins vs, s.names) :: s.obs }
-    | _, _ => { s with bad := some ("unparsable-answer:" ++ pctEnc out) }
+    | _, _ => { s with bad := some ("unparsable-answer:" ++ encB out) }
   | _ => s
 
 def explain : Obs × List String → Option String
   | (.req ins out enc, _) =>
     if !reqFoldOk ins out then
-      some s!"- request-fold-rule-violated step={ins.length} out={pctEnc (fmtReq out)}"
+      some s!"- request-fold-rule-violated step={ins.length} out={encB (fmtReq out)}"
     else if !reqEncOk out enc then
-      some s!"- request-encoding-does-not-carry-the-action step={ins.length} out={pctEnc (fmtReq out)}"
+      some s!"- request-encoding-does-not-carry-the-action step={ins.length} out={encB (fmtReq out)}"
     else none
   | (.resp ins prev out enc, _) =>
     if !respFoldOk ins prev out then
-      some s!"- response-fold-rule-violated step={ins.length} out={pctEnc (fmtResp out)}"
+      some s!"- response-fold-rule-violated step={ins.length} out={encB (fmtResp out)}"
     else if !respEncOk out enc then
-      some s!"- response-encoding-does-not-carry-the-action step={ins.length} out={pctEnc (fmtResp out)}"
+      some s!"- response-encoding-does-not-carry-the-action step={ins.length} out={encB (fmtResp out)}"
     else none
   | (.reqSite ins enc, _) =>
     if reqSiteHolds ins enc then none
     else
-      some s!"- request-fold-site-variables-violate-the-rule n={ins.length} enc={pctEnc (fmtEnc enc)}"
+      some s!"- request-fold-site-variables-violate-the-rule n={ins.length} enc={encB (fmtEnc enc)}"
   | (.respSite ins enc, _) =>
     if respSiteHolds ins enc then none
     else
-      some s!"- response-fold-site-variables-violate-the-rule n={ins.length} enc={pctEnc (fmtEnc enc)}"
+      some s!"- response-fold-site-variables-violate-the-rule n={ins.length} enc={encB (fmtEnc enc)}"
 
   | (.legacyReq H0 rs enc, _) =>
     if legacyReqHolds H0 rs enc then none
-    else some s!"- legacy-request-dispatch-violates-the-rule remedies={rs.length} enc={pctEnc (fmtEnc enc)}"
+    else some s!"- legacy-request-dispatch-violates-the-rule remedies={rs.length} enc={encB (fmtEnc enc)}"
   | (.legacyResp st rs enc, _) =>
     if legacyRespHolds st rs enc then none
-    else some s!"- legacy-response-dispatch-violates-the-rule remedies={rs.length} enc={pctEnc (fmtEnc enc)}"
+    else some s!"- legacy-response-dispatch-violates-the-rule remedies={rs.length} enc={encB (fmtEnc enc)}"
 
 def judgeFinish (s : JudgeSt) : String :=
   match s.bad with
